@@ -20,7 +20,7 @@ import vlib
 
 META = {
     "category": "proof",
-    "text": "32 Rocq theorems over the reals (coq/Properties_C13.v), for ALL inputs and ALL parameter tuples: each of the 13 "
+    "text": "35 Rocq theorems over the reals (coq/Properties_C13.v), for ALL inputs and ALL parameter tuples: each of the 13 "
             "membership functions of src/mf.c lies in [0,1] (no ordering needed except dsig: equal slopes, centres ordered "
             "with the sign of the slope; refuted without), is exactly 1 on its core and 0 outside its support, is continuous "
             "at every x (stdlib continuity; non-zero widths), monotone on each flank (gauss, gauss2, gbell, sig, trap, tri, "
@@ -40,7 +40,9 @@ META = {
             "divisor - so between base+min and base+max active consequent - or exactly the base gain when no rule fires or "
             "the rule base is NULL; the divisor is positive for six operators whenever both inputs have active sets and "
             "for the bounded product iff some pair of active memberships sums above 1; after every run/pos/inc step of "
-            "every history the output is within outmin..outmax.  NOT proved: monotone flanks of psig with slopes of "
+            "every history the output is within outmin..outmax; a concrete 2x2 controller satisfies all hypotheses (gains "
+            "computed in closed form; zero-sum case keeps the base gains; C13/Examples.v also shows by vm_compute on binary64 "
+            "that the as-found a_pid_fuzzy_out_ stored NaN there and that an undersized block gives Fail ErrScratch).  NOT proved: monotone flanks of psig with slopes of "
             "opposite sign; rounding (binary64) is outside the theorems.  Tie: the SAME Gallina terms instantiated "
             "with primitive binary64 floats are evaluated by vm_compute and compared bit for bit with the C built from the "
             "current tree (-O2 -ffp-contract=off, ASan; exp/pow replaced by identical substitutes on both sides): all 13 "
